@@ -77,8 +77,12 @@ impl ToleranceMap for DiscreteDomainTolMap {
             None
         } else if let Some(i) = self.domain.index_of(x) {
             Some(self.tol_zones[i])
-        } else {
+        } else if x > self.domain[self.domain.len() - 1] {
+            // Beyond the last breakpoint the last zone extends to infinity
             Some(self.tol_zones[self.tol_zones.len() - 1])
+        } else {
+            // Below the first breakpoint no zone applies
+            None
         }
     }
 }
